@@ -267,8 +267,12 @@ def flat_solution(run):
 
 def judge(case, run, r1):
     """All synthetic-world oracles for one run.  Returns list of findings."""
+    return judge_common(run, r1) + judge_synth(case, run, r1)
+
+
+def judge_common(run, r1):
+    """Oracles that need only the run and the model's result (both worlds)."""
     out = []
-    world = case['world']
     m = run.monitor
     returned = run.outcome in ('solved', 'failed')
 
@@ -303,6 +307,38 @@ def judge(case, run, r1):
             out.append(F('C01', 'C01.b', 'blocked-not-named',
                          f'blocked lines {sorted(need - named)} not named in the diagnostics'))
 
+    if returned:
+        flat = flat_solution(run)
+        # ---- C06: no lost waiter => everything the model can compute was computed ----
+        lost = sorted(set(r1.values) - set(flat))
+        if lost and r1.verdict != 'abort':
+            out.append(F('C06', 'C06.lost', 'computable-line-without-value',
+                         f'lines {lost[:6]} are computable from the final inputs but have no value'))
+        # ---- C05.model: full agreement with the model ----
+        if r1.verdict != 'abort':
+            if run.outcome != r1.verdict:
+                out.append(F('C05', 'C05.model', 'verdict', f'verdict {run.outcome}, model {r1.verdict}'))
+            if set(run.unimpl) != set(r1.unimpl):
+                out.append(F('C05', 'C05.model', 'unimpl', f'unimplemented {sorted(set(run.unimpl))} model {sorted(r1.unimpl)}'))
+            ui = {k: set(v) for k, v in run.unmet_in.items()}
+            if ui != {k: set(v) for k, v in r1.missing.items()}:
+                out.append(F('C05', 'C05.model', 'unmet-inputs', f'unmet inputs {run.unmet_in} model {r1.summary()["missing"]}'))
+            uf = {k: set(v) for k, v in run.unmet_f.items()}
+            if uf != {k: set(v) for k, v in r1.blocked.items()}:
+                out.append(F('C05', 'C05.model', 'unmet-fields', f'unmet fields {run.unmet_f} model {r1.summary()["blocked"]}'))
+        # ---- C04.model ----
+        if run.outcome == 'solved' and r1.verdict == 'solved' and set(flat) != set(r1.demanded):
+            out.append(F('C04', 'C04.model', 'closure',
+                         f'solution lines differ from the demand closure: extra {sorted(set(flat) - r1.demanded)[:6]} '
+                         f'missing {sorted(r1.demanded - set(flat))[:6]}'))
+    return out
+
+
+def judge_synth(case, run, r1):
+    out = []
+    world = case['world']
+    m = run.monitor
+    returned = run.outcome in ('solved', 'failed')
     # ---- C03 / C12: values ----
     if returned:
         flat = flat_solution(run)
@@ -325,31 +361,9 @@ def judge(case, run, r1):
                 prop = 'C12' if st[0] != nv[0] else 'C03'
                 out.append(F(prop, f'{prop}.stored', 'stored-differs',
                              f'{q}: evaluation returned {st}, re-derivation gives {nv}'))
-        # ---- C06: no lost waiter => everything the model can compute was computed ----
-        lost = sorted(set(r1.values) - set(flat))
-        if lost and r1.verdict != 'abort':
-            out.append(F('C06', 'C06.lost', 'computable-line-without-value',
-                         f'lines {lost[:6]} are computable from the final inputs but have no value'))
-        # ---- C05.model: full agreement with the model ----
-        if r1.verdict != 'abort':
-            if run.outcome != r1.verdict:
-                out.append(F('C05', 'C05.model', 'verdict', f'verdict {run.outcome}, model {r1.verdict}'))
-            if set(run.unimpl) != set(r1.unimpl):
-                out.append(F('C05', 'C05.model', 'unimpl', f'unimplemented {sorted(set(run.unimpl))} model {sorted(r1.unimpl)}'))
-            ui = {k: set(v) for k, v in run.unmet_in.items()}
-            if ui != {k: set(v) for k, v in r1.missing.items()}:
-                out.append(F('C05', 'C05.model', 'unmet-inputs', f'unmet inputs {run.unmet_in} model {r1.summary()["missing"]}'))
-            uf = {k: set(v) for k, v in run.unmet_f.items()}
-            if uf != {k: set(v) for k, v in r1.blocked.items()}:
-                out.append(F('C05', 'C05.model', 'unmet-fields', f'unmet fields {run.unmet_f} model {r1.summary()["blocked"]}'))
-
     # ---- C04: closure (successful solves) ----
     if run.outcome == 'solved' and r1.verdict == 'solved':
         flat = flat_solution(run)
-        if set(flat) != set(r1.demanded):
-            out.append(F('C04', 'C04.model', 'closure',
-                         f'solution lines differ from the demand closure: extra {sorted(set(flat) - r1.demanded)[:6]} '
-                         f'missing {sorted(r1.demanded - set(flat))[:6]}'))
         hist = closure_from_history(case, run)
         if hist is not None and set(flat) != hist:
             out.append(F('C04', 'C04.history', 'closure-history',
